@@ -10,6 +10,7 @@ One(d) == d.ok /\ Len(d.forest) = 1
 Why(o) ==
   LET e == ToIon(o.gv, "")
   IN IF o.panic # "" THEN "panic"
+     ELSE IF o.stale # "" THEN o.stale
      ELSE IF o.texterr # "" THEN "MarshalText refused a supported value"
      ELSE IF o.binerr # "" THEN "MarshalBinary refused a supported value"
      ELSE LET dt == TextDecode(o.text)
